@@ -172,6 +172,16 @@ impl Recv {
         // out of `ReservedRemote`. As a result, `recv_open` reports each of them
         // as initial. Only account for the stream once.
         if is_initial && !stream.is_counted {
+            // Promised streams are checked against the limit when they are
+            // reserved, but only counted once they are opened.
+            if !counts.can_inc_num_recv_streams() {
+                tracing::debug!(
+                    "stream error REFUSED_STREAM -- recv_headers: max concurrent streams reached; stream={:?}",
+                    stream.id
+                );
+                return Err(Error::library_reset(stream.id, Reason::REFUSED_STREAM).into());
+            }
+
             // TODO: be smarter about this logic
             if frame.stream_id() > self.last_processed_id {
                 self.last_processed_id = frame.stream_id();
